@@ -102,6 +102,18 @@ pub fn run(run: &mut Run) {
             if s.partial_cmp(&e).is_some() || e.partial_cmp(&s).is_some() || s < e || s > e || s <= e || s >= e || s == e || e < s || e > s || e <= s || e >= s {
                 bad(run, "score-vs-error", format!("Score({a}) and Error({b}) must be incomparable"));
             }
+            // individuals with incomparable results (score vs error, NaN vs anything) are incomparable under
+            // every operator form, derived ones (<=, >=) included (seeded C15-k)
+            {
+                let (is, ie) = (EcIndividual::new(1u8, s.clone()), EcIndividual::new(2u8, e.clone()));
+                if is.partial_cmp(&ie).is_some() || ie.partial_cmp(&is).is_some() || is < ie || is > ie || is <= ie || is >= ie || ie < is || ie > is || ie <= is || ie >= is {
+                    bad(run, "individual-score-vs-error", format!("individuals with Score({a}) and Error({b}) must be incomparable under every operator"));
+                }
+                let (fx, fn_) = (EcIndividual::new(1u8, a as f64), EcIndividual::new(2u8, f64::NAN));
+                if fx.partial_cmp(&fn_).is_some() || fx < fn_ || fx > fn_ || fx <= fn_ || fx >= fn_ || fn_ <= fx || fn_ >= fx || fn_ <= fn_.clone() || fn_ >= fn_.clone() {
+                    bad(run, "individual-nan", format!("individuals with results {a} and NaN must be incomparable under every operator"));
+                }
+            }
             // within one polarity TestResult compares like the inner value
             let s2: TestResult<i64, i64> = TestResult::Score(Score(b));
             let e1: TestResult<i64, i64> = TestResult::Error(Error(a));
@@ -235,7 +247,7 @@ pub fn run(run: &mut Run) {
             }
             // individuals compare as their results, whatever the genomes
             let (ia, ib) = (EcIndividual::new(7u8, a.clone()), EcIndividual::new(3u8, b.clone()));
-            if ia.cmp(&ib) != ta.cmp(&tb) || ia.partial_cmp(&ib) != Some(ta.cmp(&tb)) || (ia < ib) != (ta < tb) {
+            if ia.cmp(&ib) != ta.cmp(&tb) || ia.partial_cmp(&ib) != Some(ta.cmp(&tb)) || (ia < ib) != (ta < tb) || (ia > ib) != (ta > tb) || (ia <= ib) != (ta <= tb) || (ia >= ib) != (ta >= tb) {
                 bad(run, "individual-compare", format!("individuals with results {va:?} / {vb:?} do not compare as their totals"));
             }
         }
@@ -248,7 +260,7 @@ pub fn run(run: &mut Run) {
                 bad(run, "results-compare-error", format!("TestResults<Error> {va:?} vs {vb:?} do not compare as their totals (reversed) {ta} vs {tb}"));
             }
             let (ia, ib) = (EcIndividual::new("x", a.clone()), EcIndividual::new("y", b.clone()));
-            if ia.cmp(&ib) != tb.cmp(&ta) {
+            if ia.cmp(&ib) != tb.cmp(&ta) || (ia < ib) != (tb < ta) || (ia > ib) != (tb > ta) || (ia <= ib) != (tb <= ta) || (ia >= ib) != (tb >= ta) {
                 bad(run, "individual-compare-error", format!("individuals with error results {va:?} / {vb:?} do not compare as their totals"));
             }
         }
